@@ -5,7 +5,7 @@
    injected at callback invocations and destructors. *)
 From Coq Require Import ZArith List Bool Lia.
 From MV Require Import Ast Eval Scalar Machine Model Policy.
-From MV.Proofs Require Import Arith Logic Prim View OpsLocal Guards Drops CapHistory Core DrainIt.
+From MV.Proofs Require Import Arith Logic Prim View OpsLocal Guards Grow Drops CapHistory Core DrainIt Refine.
 Import ListNotations.
 Open Scope Z_scope.
 
@@ -76,3 +76,55 @@ Theorem C04_dropping_a_drain_restores_prefix_and_suffix :
 Proof. intros cfg Hc Hd ncap tmp. exact (drain_drop_machine cfg Hc Hd ncap tmp). Qed.
 
 Print Assumptions C04_dropping_a_drain_restores_prefix_and_suffix.
+
+(* ---- every history over push / insert / pop / remove / swap_remove / truncate / reserve /
+   reserve_exact / shrink_to_fit / shrink_to, with the growth policy REGENERATED from the source:
+   the vector's contents follow the list model, and `vabs` says that the block is laid out
+   correctly and that the listed elements are initialised, live and pairwise distinct ---- *)
+Theorem C04_every_history_refines_the_list_model :
+  forall cfg, cfg_ok cfg -> needs_drop cfg = true ->
+  forall v os s l,
+  vabs cfg s v l -> Forall rop_ok os ->
+  post (run_rops cfg (ncap_of cfg) v os s)
+       (fun _ s' => exists l', rsteps os l l' /\ vabs cfg s' v l')
+       (fun _ => False).
+Proof. intros cfg Hc Hd. exact (history_refines_list_spec cfg (ncap_of cfg) Hc (ncap_policy cfg) Hd). Qed.
+
+Theorem C04_the_listed_elements_are_owned :
+  forall cfg s v l, vabs cfg s v l ->
+  NoDup l /\ (forall e, In e l -> ledger s e = Live) /\ (forall e, In e l -> e < next_elem s).
+Proof. exact vabs_owned. Qed.
+
+Example C04_refinement_hypotheses_satisfiable :
+  let cfg := {| esz := 24; ealign := 8; needs_drop := true; release := true |} in
+  let s := {| heap := []; vecs := [Some Sentinel]; iters := []; ledger := fun _ => Fresh; payload := fun _ => 0;
+              next_elem := 0; drop_panics := [1; 3]; clone_panics := []; alloc_fail := None;
+              alloc_limit := 1073741824; events := [] |} in
+  cfg_ok cfg /\ vabs cfg s 0 [] /\
+  Forall rop_ok [RPush 5; RInsert 0 6; RInsert 7 8; RCap CShrinkToFit; RSwapRemove 0; RPop; RTruncate 0; RRemove 3].
+Proof.
+  split; [repeat split; reflexivity|]. split; [left; split; reflexivity|].
+  repeat constructor; simpl; lia.
+Qed.
+
+Print Assumptions C04_every_history_refines_the_list_model.
+
+(* truncate (and clear) with ANY set of panicking destructors: whether it returns or unwinds, the
+   vector is the kept prefix and every element of the cut tail has been destroyed *)
+Theorem C04_truncate_under_panicking_destructors :
+  forall cfg, cfg_ok cfg -> needs_drop cfg = true -> forall s v l n,
+  vabs cfg s v l -> 0 <= n ->
+  let Q := fun s' => vabs cfg s' v (firstn (Z.to_nat n) l) /\
+                     forall e, In e (skipn (Z.to_nat n) l) -> ledger s' e = Dropped in
+  post (truncate cfg v n s) (fun _ s' => Q s') Q.
+Proof. exact truncate_abs. Qed.
+
+(* a push / insert that unwinds (capacity overflow, index out of range) leaves the list unchanged *)
+Theorem C04_refused_insert_changes_nothing :
+  forall cfg ncap, cfg_ok cfg -> policy_ok ncap -> needs_drop cfg = true -> forall s v l idx e,
+  vabs cfg s v l -> ledger s e = Live -> ~ In e l -> e < next_elem s -> 0 <= idx ->
+  post (insert cfg ncap v idx e s)
+    (fun _ s' => idx <= Z.of_nat (List.length l) /\ vabs cfg s' v (list_insert (Z.to_nat idx) e l))
+    (fun s' => vabs cfg s' v l).
+Proof. exact insert_abs. Qed.
+Print Assumptions C04_truncate_under_panicking_destructors.
